@@ -49,5 +49,5 @@ package rootmulti
 //@ func (rs *Store) loadCommitStoreFromParams(key types.StoreKey, id types.CommitID, params storeParams) (store types.CommitStore, err error)
 //@   props C12
 //@   may_panic
-//@   modifies mdb.size
+//@   modifies mdb.size, tree.cur
 //@   ensures [policy] params.typ == 2 && err == nil ==> unbox(store, "*store/iavl.Store").numRecent == rs.pruningOpts.keepRecent && unbox(store, "*store/iavl.Store").storeEvery == rs.pruningOpts.keepEvery
